@@ -114,9 +114,12 @@ func main() {
 	nruns := flag.Bool("nruns", false, "print the number of runs of the tier and exit")
 	maxFiles := flag.Int("maxfiles", 3, "replay files per signature")
 	flushEvery := flag.Int("flush", 250, "emit a partial summary every N runs")
+	hashes := flag.Bool("hashes", false, "emit the event-log hash and verdict of every run (determinism self-test)")
 	flag.Parse()
 	defer out.Flush()
-	runtime.GOMAXPROCS(2)
+	if os.Getenv("VERIF_GOMAXPROCS") == "" {
+		runtime.GOMAXPROCS(2)
+	}
 	loadSites(*sites)
 	worlds.CheckSeed = *seed
 
@@ -208,6 +211,15 @@ func main() {
 		plan := p.Gen(worlds.NewRand(planSeed), idx, *tier)
 		v, o := p.Run(plan, schedSeed, nil, false, false)
 		a.Evaluations++
+		if *hashes {
+			h := map[string]interface{}{"t": "h", "i": idx, "class": v.Class, "sig": v.Sig, "machinery": v.Machinery}
+			if o != nil {
+				h["hash"] = fmt.Sprintf("%016x", o.LogHash)
+				h["steps"] = o.Steps
+				h["tape"] = len(o.Tape)
+			}
+			emit(h)
+		}
 		if o != nil {
 			a.Steps += o.Steps
 			a.SimTimeNs += int64(o.SimTime)
